@@ -1751,7 +1751,10 @@ def suite_engine_oracle(ctx, n_specs=None):
 
 
 def engine_traces(ctx):
-    pass
+    """Whole-engine traces: the real engine against coq/Model/Engine.v (view after every event) plus the
+    engine-level C04 oracles (join row unique, join started only with its cardinality met, started once)."""
+    from harness import engine_trace as et
+    et.trace_suite(ctx, ['C04'], ['plain', 'plain', 'operator'], 150, 2000, suite='engine_trace_C04')
 
 
 def run(ctx):
